@@ -173,6 +173,39 @@ def field_slicing(F, rep):
         rep.ob("fields.whole", seen.get(nm) == "[u8; %d]" % ln, "io::slippi::de::player", nm, "name field `%s` must be passed whole ([u8; %d]) to MeleeString::try_from, got %s" % (nm, ln, seen.get(nm)),
                sample={"field": nm, "type": seen.get(nm)})
     rep.floor("MeleeString::try_from call sites in player()", len(seen), 3)
+    # "every name field is decoded": a decode is conditional only on the presence of its own field (the Option of the array the
+    # version provides), never on another value of the player (its type, its port, ..)
+    import safety
+    root = b["tir"]["value"]
+    parents = safety.parents(root)
+    for n in tir.walk(root):
+        if not (n.get("k") == "Call" and (declared(n) or "").endswith("TryFrom::try_from") and "MeleeString" in (n.get("ty") or "")):
+            continue
+        a = strip(n["args"][0])
+        if a.get("k") == "MethodCall" and a["method"] == "as_slice":
+            a = strip(a["recv"])
+        aid = a.get("id") if a.get("k") == "Path" else None
+        bad = []
+        y = n
+        while id(y) in parents:
+            p = parents[id(y)]
+            cond_pats = None
+            if p.get("k") == "If" and p.get("cond") is not y:
+                c = strip(p["cond"])
+                cond_pats = [c["pat"]] if c.get("k") == "LetCond" else []
+            elif p.get("k") == "Match" and p.get("scrut") is not y:
+                cond_pats = [arm["pat"] for arm in p["arms"] if any(z is y for z in tir.walk(arm["body"]))]
+            if cond_pats is not None:
+                binds = []
+                for q in cond_pats:
+                    import canon
+                    canon.binding_pats(q, binds)
+                if not (aid is not None and any(bp.get("id") == aid for bp in binds)):
+                    bad.append(p)
+            y = p
+        rep.ob("fields.unconditional", not bad, "io::slippi::de::player", (a.get("name") or "?") + ".condition",
+               "the decode of name field `%s` is under a condition other than the presence of that field (%s): for some players the field would not be decoded (nor an invalid sequence rejected)" % (
+                   a.get("name"), "; ".join(tir.pretty(x.get("cond") or x.get("scrut"))[:50] for x in bad)), tir.sp(n))
 
 
 def table_rule(F, rep):
